@@ -193,7 +193,22 @@ func c18Exec(run *ev.Run, c ev.Case) {
 					run.Inconclusive("udp listen: " + err.Error())
 					return
 				}
-				st, err := bmc.DialV2(srv.Addr(), bmc.WithTimeout(200*time.Millisecond))
+				var st *bmc.V2SessionlessTransport
+				if r.Intn(2) == 0 {
+					// the version-agnostic entry point (an IPMI v2.0 connection is what it makes)
+					var generic bmc.SessionlessTransport
+					generic, err = bmc.Dial(context.Background(), srv.Addr(), bmc.WithTimeout(200*time.Millisecond))
+					if err == nil {
+						st, _ = generic.(*bmc.V2SessionlessTransport)
+						if st == nil {
+							run.Violation("C18:dial-type", fmt.Sprintf("bmc.Dial returned a %T", generic), cs, nil)
+							srv.Close()
+							return
+						}
+					}
+				} else {
+					st, err = bmc.DialV2(srv.Addr(), bmc.WithTimeout(200*time.Millisecond))
+				}
 				model.add("bmc_connection_open_attempts_total", "version=2.0", 1)
 				if err != nil {
 					model.add("bmc_connection_open_failures_total", "version=2.0", 1)
